@@ -18,6 +18,7 @@ import OFV.Proofs.C03Spec
 import OFV.Proofs.C03Fock
 import OFV.Proofs.C03Valid
 import OFV.Proofs.C03Chemist
+import OFV.Proofs.C03WeylSpec
 import Mathlib.Tactic.NormNum
 
 namespace OFV.C03
@@ -183,6 +184,28 @@ theorem normal_ordered_sound_melF (a : Op) (hv : ∀ e ∈ a, ∀ f ∈ e.1, f.2
   have hv' : ∀ e ∈ normalOrdered 0 .fermion a, ∀ f ∈ e.1, f.2 < 2 :=
     normalOrdered_valid 0 .fermion (fun f => f.2 < 2) (fun t ht => ht) a hv
   rw [← fock_evalOp_melF _ hv', ← fock_evalOp_melF _ hv, normal_ordered_sound_fock]
+
+/-! ## soundness against the bosonic / quadrature Spec itself (polynomial representation)
+
+`weylInterp` lifts the local exponent rules of `Spec.actB` / `Spec.actQuad` (`b_j^† = x_j·`,
+`b_j = ∂_j`; `q_j = x_j·`, `p_j = -iħ ∂_j`) to endomorphisms of the free module over occupation
+functions; it satisfies the CCR / `[q, p] = iħ` (`weyl_ccr`, `weyl_pq`), and its coefficients are
+those of the executable `Spec.applyOp` on canonical exponent vectors (`weyl_evalOp_apply`). -/
+
+/-- bosons: every coefficient of `normal_ordered(A)·x^s` equals that of `A·x^s` (all canonical
+exponent vectors `s`, `out`; action codes 0 / 1) — what `spec.eq` tests, for ALL inputs. -/
+theorem normal_ordered_sound_boson_spec (a : Op) (hv : ∀ e ∈ a, ∀ f ∈ e.1, f.2 < 2)
+    (s out : Spec.Mono) (hs : Trimmed s) (ho : Trimmed out) :
+    Spec.GV.coeff (Spec.applyOp .boson (normalOrdered 0 .boson a) s) out =
+      Spec.GV.coeff (Spec.applyOp .boson a s) out :=
+  normalOrdered_sound_boson_spec a hv s out hs ho
+
+/-- quadratures, EVERY `ħ`: same statement for `normal_ordered(A, hbar)` in the Schrödinger
+representation `p = -iħ ∂` (the nested-contraction defect F03 would falsify it for `ħ ≠ 1`). -/
+theorem quad_sound_hbar_spec (hbar : GQ) (a : Op) (s out : Spec.Mono) (hs : Trimmed s) (ho : Trimmed out) :
+    Spec.GV.coeff (Spec.applyOp (.quad hbar) (normalOrdered 0 (.quad hbar) a) s) out =
+      Spec.GV.coeff (Spec.applyOp (.quad hbar) a s) out :=
+  normalOrdered_sound_quad_spec hbar a s out hs ho
 
 /-! ## `chemist_ordered` and `reorder` only rewrite the operator -/
 
